@@ -1,0 +1,51 @@
+//! Verification hooks (compiled only with `--cfg ndarray_interp_verif`).
+//!
+//! A thread-local event buffer that the conformance harness in /verif drains.
+//! Nothing in here influences the behaviour of the library.
+
+use std::cell::RefCell;
+
+/// One recorded hook event
+#[derive(Debug, Clone)]
+pub enum Event {
+    /// a call of `cast_unchecked::<A, B>`
+    Cast {
+        from: &'static str,
+        to: &'static str,
+        from_size: usize,
+        to_size: usize,
+        from_align: usize,
+        to_align: usize,
+    },
+    /// the return path of `get_lower_index`
+    /// (`path` is one of `ClampLo`, `ClampHi`, `GuessHit`, `Search`)
+    Lookup {
+        path: &'static str,
+        len: usize,
+        guess: usize,
+        steps: usize,
+        result: usize,
+    },
+}
+
+thread_local! {
+    static EVENTS: RefCell<Option<Vec<Event>>> = const { RefCell::new(None) };
+}
+
+/// start recording on the current thread (clears earlier events)
+pub fn start() {
+    EVENTS.with(|e| *e.borrow_mut() = Some(Vec::new()));
+}
+
+/// stop recording on the current thread and return what was recorded
+pub fn take() -> Vec<Event> {
+    EVENTS.with(|e| e.borrow_mut().take().unwrap_or_default())
+}
+
+pub(crate) fn emit(ev: Event) {
+    EVENTS.with(|e| {
+        if let Some(v) = e.borrow_mut().as_mut() {
+            v.push(ev);
+        }
+    });
+}
